@@ -51,7 +51,7 @@ def _graph_schedules(g, limit, max_len):
             if not m:
                 continue
             act, r = m.group(1), m.group(2)
-            if act in ("Start", "Finish", "Cancel"):
+            if act in ("Start", "Finish", "Fail", "Cancel"):
                 c = [act.lower(), r]
                 if any(b[1] == r for b in batch):
                     sched.append(batch)
